@@ -543,6 +543,11 @@ void init_configs()
         Config{"expected<TMO,ErrMO>", &EXP<lt::TMO, TV<1, Kind::move_only>>::run, E_NCODES, ecode_names, true},
         Config{"expected<TCO,ErrCO>", &EXP<lt::TCO, TV<1, Kind::copy_only>>::run, E_NCODES, ecode_names, true},
         Config{"expected<TA,ErrTA>", &EXP<TA<0>, TA<2>>::run, E_NCODES, ecode_names, true},
+        // NC: copy constructor/assignment noexcept(false); AO: overloaded unary operator& (see C03_shared.cpp)
+        Config{"optional<NC>", &OPT<NC<0>>::run, NCODES, code_names, false},
+        Config{"optional<AO>", &OPT<AO<0>>::run, NCODES, code_names, false},
+        Config{"expected<NC,ErrNC>", &EXP<NC<0>, NC<2>>::run, E_NCODES, ecode_names, false},
+        Config{"expected<AO,ErrAO>", &EXP<AO<0>, AO<2>>::run, E_NCODES, ecode_names, false},
     };
 }
 
